@@ -205,6 +205,20 @@ def check(run):
                     run.violation('pipe-raises-' + type(e).__name__, dict(error=str(e)[:200], data_key='halos', bytes_already_written=len(pipe.getvalue()), **desc))
                 else:
                     compare(run, pipe.getvalue(), arrs, fields, dict(desc, data_key='halos'))
+            # the same paths piped again after the files were rewritten with other row counts / dtypes (nothing may be remembered per path)
+            if k % 9 == 1 and not big:
+                spec2 = {n: (DTS[(DTS.index(spec[n][0]) + 1 + j) % 6], spec[n][1]) for j, n in enumerate(spec)}
+                fns2, arrs2 = make_files(rng, d, len(fns), spec2, comp, f'c{k}')  # same tag -> same file names
+                if fns2 == list(fns):
+                    pipe = RecordingPipe()
+                    run.ev()
+                    run.count('rewritten_path_invocations')
+                    try:
+                        PA.unpack_to_pipe(fns2, fields, pipe=pipe, verbose=False)
+                    except Exception as e:
+                        run.violation('pipe-raises-' + type(e).__name__, dict(error=str(e)[:200], second_call_after_rewrite=True, **desc))
+                    else:
+                        compare(run, pipe.getvalue(), arrs2, fields, dict(desc, second_call_after_rewrite=True))
             # verbose mode reports to stderr only: the pipe carries the same bytes
             if k % 9 == 2:
                 import contextlib
